@@ -98,4 +98,76 @@ theorem normScaledE_ok (x v : Array α) (r : α) (h : normScaledE x v = .ok r) :
 
 end
 
+section
+open Residuals
+/-- what `Info.update` assigns, field by field (used by `C03.update_assigns`, `C02.no_rollback_consistency`) -/
+theorem update_fields {α : Type} [Add α] [Sub α] [Mul α] [Div α] [Neg α] [OfNat α 0] [OfNat α 1] [OfNat α 2]
+    [LT α] [DecidableLT α] [FloatLike α] (i i' : InfoS α) (eq : Equil α) (normq normb : α) (v : Vars α) (r : Resid α)
+    (h : Info.update i eq normq normb v r = .ok i') :
+    let τinv := 1 / v.τ
+    let cinv := 1 / eq.c
+    let nx := Vec.normScaled v.x eq.d
+    let nz := Vec.normScaled v.z eq.e * cinv
+    let ns := Vec.normScaled v.s eq.einv
+    i'.cost_primal = (r.dot_qx * τinv + r.dot_xPx * τinv * τinv / 2) * cinv
+    ∧ i'.cost_dual = (-r.dot_bz * τinv - r.dot_xPx * τinv * τinv / 2) * cinv
+    ∧ i'.res_primal_inf = (Vec.normScaled r.rx_inf eq.dinv * cinv) / fmax 1 nz
+    ∧ i'.res_dual_inf = fmax (Vec.normScaled r.Px eq.dinv / fmax 1 nx)
+                             (Vec.normScaled r.rz_inf eq.einv / fmax 1 (nx + ns))
+    ∧ i'.res_primal = Vec.normScaled r.rz eq.einv * τinv / fmax 1 (normb + nx * τinv + ns * τinv)
+    ∧ i'.res_dual = Vec.normScaled r.rx eq.dinv * τinv * cinv / fmax 1 (normq + nx * τinv + nz * τinv)
+    ∧ i'.gap_abs = fabs (i'.cost_primal - i'.cost_dual)
+    ∧ i'.gap_rel = i'.gap_abs / fmax 1 (fmin (fabs i'.cost_primal) (fabs i'.cost_dual))
+    ∧ i'.ktratio = v.κ * τinv
+    ∧ i'.status = i.status ∧ i'.iterations = i.iterations := by
+  unfold Info.update at h
+  simp only [bind, Except.bind, pure, Except.pure] at h
+  repeat' split at h
+  all_goals first | (cases h; done) | skip
+  rename_i _ _ h1 _ _ h2 _ _ h3 _ _ h4 _ _ h5 _ _ h6 _ _ h7 _ _ h8
+  have e1 := normScaledE_ok _ _ _ h1
+  have e2 := normScaledE_ok _ _ _ h2
+  have e3 := normScaledE_ok _ _ _ h3
+  have e4 := normScaledE_ok _ _ _ h4
+  have e5 := normScaledE_ok _ _ _ h5
+  have e6 := normScaledE_ok _ _ _ h6
+  have e7 := normScaledE_ok _ _ _ h7
+  have e8 := normScaledE_ok _ _ _ h8
+  subst e1 e2 e3 e4 e5 e6 e7 e8
+  cases h
+  exact ⟨rfl, rfl, rfl, rfl, rfl, rfl, rfl, rfl, rfl, rfl, rfl⟩
+
+
+end
+
+section
+variable {α : Type} [Mul α] [Div α] [Neg α] [OfNat α 1] [OfNat α 100] [OfNat α 1000]
+  [LT α] [DecidableLT α] [LE α] [DecidableLE α]
+
+/-- if `checkConvergence` newly assigns the primal-infeasibility status, the primal test fired -/
+theorem conv_pinf (i : InfoS α) (bz qx : α) (t : Tols α) (s1 s2 s3 : SolverStatus)
+    (h : (checkConvergence i bz qx t s1 s2 s3).status = s2) (h0 : i.status ≠ s2)
+    (h12 : s1 ≠ s2) (h32 : s3 ≠ s2) :
+    i.ktratio > (1 / t.ktratio) * 1000 ∧ bz < -t.infeas_abs ∧ i.res_primal_inf < -t.infeas_rel * bz := by
+  rcases checkConvergence_cases i bz qx t s1 s2 s3 with hc | hc | hc | hc
+  · rw [hc.1] at h; exact absurd h h12
+  · have := (isPrimalInfeasible_iff i _ _ _).mp hc.2.2.2
+    exact ⟨hc.2.2.1, this.1, this.2⟩
+  · rw [hc.1] at h; exact absurd h h32
+  · rw [hc] at h; exact absurd h h0
+
+/-- if `checkConvergence` newly assigns the dual-infeasibility status, the dual test fired
+(and the primal one did not) -/
+theorem conv_dinf (i : InfoS α) (bz qx : α) (t : Tols α) (s1 s2 s3 : SolverStatus)
+    (h : (checkConvergence i bz qx t s1 s2 s3).status = s3) (h0 : i.status ≠ s3)
+    (h13 : s1 ≠ s3) (h23 : s2 ≠ s3) :
+    i.ktratio > (1 / t.ktratio) * 1000 ∧ qx < -t.infeas_abs ∧ i.res_dual_inf < -t.infeas_rel * qx := by
+  rcases checkConvergence_cases i bz qx t s1 s2 s3 with hc | hc | hc | hc
+  · rw [hc.1] at h; exact absurd h h13
+  · rw [hc.1] at h; exact absurd h h23
+  · have := (isDualInfeasible_iff i _ _ _).mp hc.2.2.2.2
+    exact ⟨hc.2.2.1, this.1, this.2⟩
+  · rw [hc] at h; exact absurd h h0
+end
+
 end Clarabel.Info
